@@ -709,7 +709,7 @@ func checkC19(c *Ctx) {
 		seqs, trunc := ConcPaths(ne, ConcCfg{
 			Event: func(in ssa.Instruction, st *ConcState) string {
 				if l, ok := in.(*ssa.Lookup); ok {
-					if mt, isM := types.Unalias(l.X.Type()).Underlying().(*types.Map); isM && strings.Contains(mt.Elem().String(), "EncoderConfig") {
+					if mt, isM := types.Unalias(l.X.Type()).Underlying().(*types.Map); isM && strings.Contains(types.Unalias(mt.Elem()).Underlying().String(), "EncoderConfig") {
 						return "lookup"
 					}
 				}
